@@ -73,6 +73,11 @@ def run(case):
             out["ex_" + m] = segs_of(tb, t.extrude(rem, mode=m))
         out["covers"] = bool(t.covers(o))
         out["covers_rev"] = bool(o.covers(t))
+        # returned timelines belong to the caller: editing them must not change what the next call returns
+        from harness.tlutil import assert_fresh
+        assert_fresh(tb, (lambda: t.gaps(support=sup)) if sup is not None else (lambda: t.gaps()), "gaps()")
+        assert_fresh(tb, lambda: t.extrude(rem, mode=("loose", "strict", "intersection")[len(case["t"]) % 3]), "extrude()")
+        assert segs_of(tb, t.gaps(support=sup) if sup is not None else t.gaps()) == out["gaps"]
         return out
     finally:
         tb.leave()
